@@ -388,3 +388,65 @@ func goTypeInferrer(p *core.Program) *ssa.Function {
 	}
 	return out
 }
+
+// ---- function values ----
+
+// resolveFuncValue: the function a function-typed value denotes when that is decidable locally: a function literal,
+// a named function, or a method value (go/ssa wraps the latter in a synthetic bound-method closure whose body is one
+// call of the real method).
+func resolveFuncValue(v ssa.Value) *ssa.Function {
+	v = core.Strip(v)
+	var fn *ssa.Function
+	switch x := v.(type) {
+	case *ssa.MakeClosure:
+		fn, _ = x.Fn.(*ssa.Function)
+	case *ssa.Function:
+		fn = x
+	}
+	for hop := 0; hop < 2 && fn != nil && fn.Synthetic != ""; hop++ {
+		var inner *ssa.Function
+		for _, ci := range core.Calls(fn) {
+			if g := ci.Common().StaticCallee(); g != nil && len(g.Blocks) > 0 {
+				inner = g
+			}
+		}
+		fn = inner
+	}
+	return fn
+}
+
+// linkSystemChoosers: the functions that the exported constructor of package linking/cid installs as the
+// EncoderChooser / DecoderChooser / HasherChooser of the LinkSystem it returns - function literals today, but a
+// method value or a named function is the same thing.
+func linkSystemChoosers(p *core.Program) (ctor *ssa.Function, out map[string]*ssa.Function) {
+	out = map[string]*ssa.Function{}
+	ctor = p.Func("linking/cid", "", "LinkSystemUsingMulticodecRegistry")
+	if ctor == nil {
+		return nil, out
+	}
+	core.InstrsR(ctor, func(in ssa.Instruction) {
+		st, ok := in.(*ssa.Store)
+		if !ok {
+			return
+		}
+		fa, ok := st.Addr.(*ssa.FieldAddr)
+		if !ok {
+			return
+		}
+		switch fnm := core.FieldName(fa); fnm {
+		case "LinkSystem.EncoderChooser", "LinkSystem.DecoderChooser", "LinkSystem.HasherChooser":
+			if g := resolveFuncValue(st.Val); g != nil {
+				out[fnm[len("LinkSystem."):]] = g
+			}
+		}
+	})
+	return ctor, out
+}
+
+// chooserParam: the chooser's own link / prototype parameter (the last one: a method's receiver comes first).
+func chooserParam(fn *ssa.Function) *ssa.Parameter {
+	if len(fn.Params) == 0 {
+		return nil
+	}
+	return fn.Params[len(fn.Params)-1]
+}
